@@ -63,7 +63,7 @@ _DED = {
     "C01": "Discharged for all inputs (non-pruning configuration; ideal-hash reading): the read path -- get_node, _traverse_extension, _traverse_from (loop invariant with a ghost key suffix), _traverse, _get, get, exists, __getitem__, __contains__: get(k) = hlk(root node, nibbles(k)) on every database, raising only MissingTrieNode; and the write path -- _set, _delete, _normalize_branch_node (helpers _set_kv_node / _set_branch_node / _delete_kv_node / _delete_branch_node executed inside those units), _set_root_node, set, delete, __setitem__, __delitem__: after the call the root denotes the old mapping with k -> v (k removed for delete / set-to-empty), for an arbitrary probe key. The induction over histories is the composition of these per-call contracts. Reference counting of pruning tries (C06) and iteration over batches are not part of these units: squash_changes is under contract with the client block abstracted (C05); what pruning removes is decided by the bounded stand-in.",
     "C02": "Discharged: the write path preserves the full canonical form hwfp (extension only over a branch, no empty paths, every branch has at least two entries, a child is embedded iff its rlp is shorter than 32 bytes) -- clauses `well-formed` of _set / _delete / _normalize_branch_node; the reference rule (_create_node_to_db_mapping), the root rule (_set_root_node / _set_raw_node: root always hashed, blank root = BLANK_NODE_HASH), _persist_node, hex-prefix encoding = Yellow-Paper HP with round trip. Lean (H.lean): a canonical trie is unique for its contents and the Yellow-Paper construction yields it; together: root = YP root of the contents. The link `hwfp + view => equals the YP trie` is the Lean theorem, not a pyvc obligation.",
     "C03": "Discharged: soundness of get_from_proof -- for an arbitrary finite list of well-formed nodes offered as proof (loop over the proof with the scratch database under the store invariant) and an arbitrary root, the call returns hlk(root node, nibbles(key)), the value the root denotes in the ideal-hash reading, or raises BadTrieProof; get (the lookup it evaluates) as in C01. Completeness (get_from_proof(root, key, get_proof(key)) = get(key)), `only nodes on the key's path` and `BadTrieProof whenever a path node is withheld` are bounded only (_get_proof is not under contract).",
-    "C04": "Discharged: every store write of _persist_node / _set_raw_node / _set_root_node is content-addressed and leaves an existing entry unchanged (store-write obligations at every db[k] = v reached in _set / _delete / set / delete), `store-only-grows` postconditions of the write path, squash_changes on a non-pruning trie (commit applies no deletes; an aborted block or a failing write leaves every old entry), _complete_pruning is a no-op without pruning, ScratchDB never writes the wrapped store while a batch is open. at_root snapshots sharing a database are bounded only.",
+    "C04": 'Discharged: every store write of _persist_node / _set_raw_node / _set_root_node is content-addressed and leaves an existing entry unchanged (store-write obligations at every db[k] = v reached in _set / _delete / set / delete), `store-only-grows` postconditions of the write path, squash_changes on a non-pruning trie (commit applies no deletes; an aborted block or a failing write leaves every old entry), _complete_pruning is a no-op without pruning, ScratchDB never writes the wrapped store while a batch is open, at_root yields a non-pruning snapshot over the same database at the requested root and leaves the trie untouched. That old roots stay *readable* follows from `store only grows` and the ideal-hash reading (what a root denotes does not depend on the database); several tries sharing one database are bounded only.',
     "C05": "Discharged: squash_changes with the client block modelled as an arbitrary sequence of operations on the batch trie (havoc of the batch trie constrained by its own contracts): normal exit adopts the batch root and commits the buffered writes (deletes only when pruning), exceptional exit and a failing write during commit leave root, store entries and reference counts as before; ScratchDB.batch_commit all-or-nothing. `no node that served only intermediate states is added` is bounded only.",
     "C06": "Discharged: _prune_node (one more pending prune iff the node is hashed and the trie prunes), _persist_node / _set_raw_node counting, _complete_pruning (per-key loop invariant: decrement, delete at zero), squash_changes adopting the batch's counts. The global accounting invariant (count = number of references in the live trie, after every history) is a whole-history property carried by the bounded stand-in and by regenerate_ref_count comparison, not by a pyvc obligation.",
     "C07": "Discharged: _traverse_from / _traverse / _get / get / exists raise MissingTraversalNode / MissingTrieNode only with a hash absent from the database, with the consumed prefix of the key, and such that the named node lies on the requested path right after that prefix (view equation for an arbitrary continuation); get names the root and the key; lookups modify nothing (frame obligations). Write path (non-pruning): a failing _set / _delete / set / delete has written nothing to the database and left the root unchanged (reads precede writes: _delete returns blank exactly when nothing was written), and names an absent hash with root and key. That the hash named by a failing *write* lies on the key's path, reference counts on failure of pruning tries, and the retry-converges clause are bounded only.",
@@ -75,6 +75,8 @@ _DED = {
     "C16": "Discharged for all lengths: bytes_to_nibbles / nibbles_to_bytes (element-wise, array encoding) and their inverse lemmas; encode_nibbles = HP and decode_nibbles with hp_roundtrip; encode_to_bin / decode_from_bin with bits_roundtrip; key-path packing round trip (the two real functions executed back to back); encode_kv/branch/leaf_node and parse_node with every rejection case; get_node_type, extract_key, is_leaf_node, is_extension_node, compute_*_key.",
     "C17": "Discharged: every clause of the property on the six methods of ScratchDB, including the commit loop (invariant over the set of processed keys).",
     "C18": 'Discharged: 41 entry points of HexaryTrie, BinaryTrie, SparseMerkleTree, calc_root, SparseMerkleProof and the branch helpers raise the stated exception on ill-typed / ill-sized arguments (and a reference count handed to a non-pruning trie, a snapshot from a pruning trie, a key size outside 1..32) before any field, database entry or reference count is written.',
+    "C10": "Discharged: NodeIterator._get_next_key (recursive; through traverse_from and its one-hop clause) returns traversed ++ kmin(node) -- kmin: a leaf's path, () at a branch with a value, otherwise the extension path / the first occupied nibble followed by the first key of that child -- or None when the node holds no key, and kmin(node) is a key the node really stores; next() without a key returns the byte string whose nibbles are kmin(root), a stored key, None on the empty trie. Lemmas first_child / branch_step / prefix_first / unit_first (first sub-segment of an annotated branch) proved once. Not discharged: that kmin is the *least* key (order lemma; Lean F.lean has the order facts, the link is not a pyvc obligation), next(k) = strict successor (_get_key_after), keys / items / values / nodes generators -- bounded only.",
+    "C11": 'Discharged: HexaryTrieFog.__init__ (only the root prefix is unexplored), is_complete (true exactly when nothing is left), mark_all_complete (loop invariant: exactly the listed prefixes are removed, from a copy -- the receiver is never modified; an unknown prefix is refused), nearest_right / nearest_unknown (the answer is a member of the unexplored set, for nearest_right the prefix containing the key or one to its right; PerfectVisibility / FullDirectionalVisibility exactly when nothing is left / nothing to the right), _prefix_distance (element-wise differences with 15 / 0 padding). sortedcontainers.SortedSet, itertools.zip_longest and map are modelled as assumed library contracts. explore() (with its nested validation loops), serialize / deserialize, the antichain invariant and order independence (Lean F.lean) are bounded only.',
 }
 for _pid, _t in _DED.items():
     PROPERTY_TEXT[_pid]["level_text"] = PROPERTY_TEXT[_pid]["level_text"] + " DEDUCTIVE PART: " + _t
